@@ -67,7 +67,9 @@ Wrappers(t) ==
   \cup (IF t.k = "DS"
         THEN {<<"badmeta_" \o m, T("BadMeta", m, 0, <<t>>)>> :
                 m \in {"unknown_type", "no_type", "method_missing_keys", "inject_unknown_field", "function_missing_keys",
-                       "collection_other_backend", "collection_extra_key", "collection_missing_element"}}
+                       "collection_other_backend", "collection_extra_key", "collection_missing_element",
+                       \* two blocks of one name with different content (job scripts exist on ATLAS only)
+                       "inject_conflict", "jobscript_conflict@atlas"}}
         ELSE {})
 
 RECURSIVE OccursG(_, _)
